@@ -34,10 +34,10 @@ def load_known():
     return known, fixed
 
 
-def select_harnesses(reg, prop, tier):
+def select_harnesses(reg, prop, tier, with_hist=False):
     hs = []
     for h in reg.values():
-        if prop not in h["props"] and "*" not in h["props"]:
+        if prop not in h["props"] and "*" not in h["props"] and not (with_hist and h.get("hist")):
             continue
         if h["tier"] == "thorough" and tier != "thorough":
             continue
@@ -90,11 +90,12 @@ def main():
     undecided, failed, obligations, harness_rows, verus_rows = [], [], [], [], []
     covers_missing = []
     canary_ok = None
+    all_discharged = set()
     src_hash = None
     injected = []
     try:
         reg = vlib.load_registry()
-        hs = select_harnesses(reg, prop, tier)
+        hs = select_harnesses(reg, prop, tier, "v_hist" in meta.get("verus", []))
         real = [h for h in hs if h["name"] != "canary"]
         if not real and not meta.get("verus"):
             raise Undecided("no harness or lemma registered for " + prop)
@@ -116,6 +117,9 @@ def main():
                     canary_ok = bool(fails) and r["status"] == "done"
                     continue
                 c = vlib.classify(h, r, prop)
+                for o in vlib.classify(h, r, None)["obligations"]:
+                    if o["kind"] == "contract" and o["status"] in ("SUCCESS", "UNREACHABLE"):
+                        all_discharged.add(o["name"])
                 obligations += c["obligations"]
                 failed += c["failed"]
                 undecided += c["undecided"]
@@ -139,6 +143,8 @@ def main():
                 if o["status"] == "FAILURE":
                     failed.append(o)
             undecided += vr.get("undecided", [])
+        if "v_hist" in meta.get("verus", []):
+            undecided += P.hist_correspondence(os.path.join(vlib.VERIF, "verus"), all_discharged)
     except Undecided as e:
         undecided.append(str(e))
     finally:
